@@ -59,6 +59,14 @@ def parseCell (s : String) : Option Cell :=
 def rcell : RCell → String
   | .str s => "s" ++ hex s
   | .num d => "n" ++ hex (Csv.fmt15 d)
+  | .int v => "i" ++ toString v
+
+/-- the `readAs` string: `n`, `s`, `i`; any other character except `h` is a column that is dropped -/
+def parseTypes (s : String) : Option (List Csv.ColType) :=
+  if s = "-" then some [] else
+  s.toList.mapM fun c =>
+    if c = 'n' then some Csv.ColType.num else if c = 's' then some .str else if c = 'i' then some .int
+    else if c = 'h' then none else some .skip
 
 def dumpTable (t : Csv.Table) : String :=
   s!"cols={hexList "," t.columns} rows=" ++ ";".intercalate (t.rows.map fun r => ",".intercalate (r.map rcell))
@@ -204,6 +212,15 @@ def step (st : St) (ts : List String) : St × String :=
     | some (cols, items, _), some s, some d =>
       (st, dumpTable (Csv.readTable (Csv.writeItemsG (UInt8.ofNat s) (UInt8.ofNat d) cols items)))
     | _, _, _ => (st, "bad-op")
+  | "tabrtt" :: ty :: sep :: dec :: args =>
+    match parseTypes ty, tableArgs args, sep.toNat?, dec.toNat? with
+    | some types, some (cols, items, _), some s, some d =>
+      (st, dumpTable (Csv.readTableT types (Csv.writeItemsG (UInt8.ofNat s) (UInt8.ofNat d) cols items)))
+    | _, _, _, _ => (st, "bad-op")
+  | ["tabreadt", ty, h] =>
+    match parseTypes ty, unhex h with
+    | some types, some t => (st, dumpTable (Csv.readTableT types t))
+    | _, _ => (st, "bad-op")
   | ["tabread", h] =>
     match unhex h with
     | some t => (st, dumpTable (Csv.readTable t))
